@@ -166,9 +166,19 @@ where
 
 impl<'a, T, L: MutLayout> SplitIterator for AxisChunks<'a, T, L> {
     fn split_at(mut self, index: usize) -> (Self, Self) {
+        assert!(index <= self.len());
+
+        let axis = self.axis;
         let (left_remainder, right_remainder) = if let Some(remainder) = self.remainder.take() {
-            let (l, r) = remainder.split_at(self.axis, self.chunk_size * index);
-            (Some(l), Some(r))
+            // The last chunk may be shorter than `chunk_size`.
+            let mid = (self.chunk_size * index).min(remainder.size(axis));
+            let (l, r) = remainder.split_at(axis, mid);
+
+            // An exhausted iterator has no remainder. See `next`.
+            (
+                if l.size(axis) > 0 { Some(l) } else { None },
+                if r.size(axis) > 0 { Some(r) } else { None },
+            )
         } else {
             (None, None)
         };
@@ -194,9 +204,19 @@ impl<'a, T, L: MutLayout + Send> IntoParallelIterator for AxisChunks<'a, T, L> {
 
 impl<'a, T, L: MutLayout> SplitIterator for AxisChunksMut<'a, T, L> {
     fn split_at(mut self, index: usize) -> (Self, Self) {
+        assert!(index <= self.len());
+
+        let axis = self.axis;
         let (left_remainder, right_remainder) = if let Some(remainder) = self.remainder.take() {
-            let (l, r) = remainder.split_at_mut(self.axis, self.chunk_size * index);
-            (Some(l), Some(r))
+            // The last chunk may be shorter than `chunk_size`.
+            let mid = (self.chunk_size * index).min(remainder.size(axis));
+            let (l, r) = remainder.split_at_mut(axis, mid);
+
+            // An exhausted iterator has no remainder. See `next`.
+            (
+                if l.size(axis) > 0 { Some(l) } else { None },
+                if r.size(axis) > 0 { Some(r) } else { None },
+            )
         } else {
             (None, None)
         };
